@@ -232,3 +232,16 @@ func Stacks() string { return stacks() }
 
 // LastQuietDump is the dump on which the most recent positive QuietNow verdict was based (diagnostics).
 var LastQuietDump string
+
+// AwaitQuiesceLong is AwaitQuiesce for workloads that legitimately run longer than the
+// watchdog: an inconclusive result (watchdog fired while goroutines were still runnable)
+// is retried until max has elapsed. Hangs are still detected from goroutine states.
+func AwaitQuiesceLong(done <-chan struct{}, max time.Duration) QuiesceResult {
+	start := time.Now()
+	for {
+		q := AwaitQuiesce(done)
+		if !q.Inconclusive || time.Since(start) > max {
+			return q
+		}
+	}
+}
